@@ -20,6 +20,8 @@ type Env struct {
 	fnPkg *types.Package
 	// resolver for source-level locals (loop invariants)
 	local func(name string) *Value
+	// seen: the "already visited" ghost set of the map-range loop an invariant is attached to (component name, key sort)
+	seenComp, seenSort string
 }
 
 func (env *Env) e() *Encoder { return env.f.e }
@@ -644,6 +646,11 @@ func (env *Env) call(n *Node) *Value {
 		return term(sel(e.comp(env.st, "CH.nrecv", arrSort(sInt)), arg(0).T), sInt, intT)
 	case "pending":
 		return term(sel(e.comp(env.st, "CH.pending", arrSort(sInt)), arg(0).T), sInt, intT)
+	case "seen": // seen(k): key k of the ranged-over map has been visited by this loop (only in invariants of a map-range loop)
+		if env.seenComp == "" {
+			env.fail("seen(k) is only meaningful in an invariant of a loop that ranges over a map")
+		}
+		return term(sel(e.comp(env.st, env.seenComp, arrSortK(env.seenSort, sBool)), arg(0).T), sBool, boolT)
 	case "i2f":
 		return term(app("i2f", arg(0).T), sF64, types.Typ[types.Float64])
 	case "unixnano":
